@@ -16,7 +16,7 @@ one() {
     echo "{\"seed\":\"$seed\",\"results\":{"
     first=1
     for p in $props; do
-      o=$(ARCHE_REPO="$d" ./bin/archecheck -property "$p" -tier quick -no-evidence 2>&1); rc=$?
+      o=$(ARCHE_REPO="$d" ${ARCHECHECK:-./bin/archecheck} -property "$p" -tier quick -no-evidence 2>&1); rc=$?
       keys=$(echo "$o" | grep -E '^  kind=' | sed -E 's/^  kind=([a-z-]+) +(.*)$/\1 \2/' | python3 -c "import sys,json; print(json.dumps([l.strip() for l in sys.stdin][:8]))")
       [ $first -eq 1 ] || echo ","
       first=0
